@@ -23,18 +23,35 @@ def pick_reps(am, stmts, maxn):
         reps = bisim.reps_for([am])
     reps = [r for r in reps if r < 256]
     if len(reps) > maxn:
-        # prefer bytes that appear literally in transitions of small classes
-        small = []
-        for s in sorted(bisim.machine_sets(am), key=len):
-            for b in sorted(s):
-                if b not in small:
-                    small.append(b)
-                if len(small) >= maxn - 1:
-                    break
-            if len(small) >= maxn - 1:
-                break
-        other = [r for r in reps if r not in small]
-        reps = small[:maxn - 1] + other[:1]
+        # the bytes the machine asks for first: breadth-first over its states from the start state, one representative per explicit
+        # transition set in the order met (so that short strings over the chosen bytes get as deep into the program as possible),
+        # plus one byte no explicit set names
+        order = []
+        seen = set()
+        start = am.dfa.starting_state
+        queue = [start]
+        seen.add(id(start))
+        while queue:
+            st = queue.pop(0)
+            nxt = []
+            for t in st.transitions:
+                vals = sorted(ord(v) for v in getattr(t, "on_values", ()) if isinstance(v, str))
+                if vals:
+                    pick = next((v for v in vals if v in reps), vals[0])
+                    if pick not in order:
+                        order.append(pick)
+                nxt.append(t.target)
+                for a in t.actions:
+                    for sub in a.all_subactions():
+                        nxt.extend(x for x in sub.get_target_override_targets() if x is not None)
+            for x in nxt:
+                if x is not None and id(x) not in seen:
+                    seen.add(id(x))
+                    queue.append(x)
+        other = [r for r in reps if r not in order]
+        reps = order[:maxn - 1] + other[:1]
+        if len(reps) < maxn:
+            reps += [r for r in order[maxn - 1:] + other[1:]][:maxn - len(reps)]
     return sorted(set(reps))[:maxn]
 
 
